@@ -16,19 +16,19 @@ STUBS = ['std::ostringstream, operator<<(int|char|double|_Setw|_Setfill|_Setprec
 def build(ctx):
     shim = ctx.build_ir('c09_logts.cpp', 'cut'); ut = ctx.build_ir(REPO + '/runtime/f8utils.cpp', 'cut')
     ll = ctx.link_ir([shim, ut], 'c09lall')
-    ctx.translate(ll, ['vf_logts'], 'c09l.c', stubfiles=['common.stubs'], models=['cxx.c', 'stubs.c', 'ostream_fmt.c'], provided=['gmtime_r'])
+    ctx.translate(ll, ['vf_logts', 'vf_fmt_fixed'], 'c09l.c', stubfiles=['common.stubs'], models=['cxx.c', 'stubs.c', 'ostream_fmt.c'], provided=['gmtime_r'])
     # model + translator validation: the generated C (real GetTimeAsStringMS + formatting model), compiled with gcc, against glibc's printf
     exe = ctx.native('c09logtsdiff', ['replay/c09_logts_diff.c'], flags=('-O1',), defines=['VF_MAXCOPY=40'])
     r = sh([exe])
     if r.returncode != 0: raise Broken('ostream formatting model disagrees with glibc: ' + r.stdout[-500:])
-    ctx.validation.append(dict(kernels=['vf_logts (GetTimeAsStringMS through models/ostream_fmt.c) vs snprintf("%0*.*f")'], result=r.stdout.strip()))
+    ctx.validation.append(dict(kernels=['models/ostream_fmt.c (setw/setfill/setprecision/fixed double, int, char through a translated std::ostringstream user) vs glibc snprintf'], result=r.stdout.strip()))
 
 def add_harnesses(ctx, defs=()):
     build(ctx)
     places = (1, 6, 9) if ctx.tier == 'quick' else range(1, 10)
     for d in places:
         ctx.add(Harness('C09_logts_d%d' % d, VERIF + '/harness/C09_logts.c', defines=list(defs) + ['DPLACES=%d' % d, 'VF_MAXCOPY=40'], unwind=3,
-                        unwindset=['vf_logts.0:41', 'vf_logts.1:41', 'vf_copy.0:42'], timeout=900, functions=FUN, stubs=STUBS,
+                        unwindset=['vf_logts.0:41', 'vf_logts.1:41', 'vf_logts.2:41', 'vf_copy.0:42'], timeout=900, functions=FUN, stubs=STUBS,
                         bounds='every instant with 0 <= seconds < 2^32 and 0 <= nanoseconds < 10^9, %d decimal place(s), UTC' % d,
                         desc='GetTimeAsStringMS text: layout and seconds field in 00..59'))
     ctx.assumptions += ['log timestamp: local-time rendering (localtime_r, TZ database) and dplaces = 0 or > 9 are outside the claim']
